@@ -12,6 +12,7 @@ package baggage_test
 //                copies and contexts re-read after every step
 
 import (
+	"net/http"
 	"context"
 	"fmt"
 	"runtime/debug"
@@ -225,6 +226,26 @@ func (c *c11) ctorCase(ms []rmem, label string) (sz sizes) {
 		out2 := baggage.FromContext(c.prop.Extract(baggage.ContextWithBaggage(context.Background(), prior), car))
 		if a := diff(got, snap(out2)); a != "" {
 			r.FailHere("inject-extract|into a context that already carries baggage|"+a+" differs", desc(), "carrier %s extracted into a context holding %s gives %s, injected %s", abbr(car.Get("baggage")), prior.String(), canonAll(snap(out2), true), canonAll(got, true))
+		}
+	}
+	// ... and when the CARRIER was used before (a proxy forwarding incoming headers, a re-sent
+	// request): what the last Inject wrote is what comes out, for both carrier types
+	if bag.Len() > 0 {
+		stage = "Inject into a carrier that already holds a baggage header"
+		earlier, err := baggage.Parse("zz-earlier=1;p=q," + c11PriorKey + "=earlier-value")
+		if err != nil {
+			panic(err)
+		}
+		for _, mk := range []struct {
+			name string
+			car  propagation.TextMapCarrier
+		}{{"MapCarrier", propagation.MapCarrier{}}, {"HeaderCarrier", propagation.HeaderCarrier(http.Header{})}} {
+			c.prop.Inject(baggage.ContextWithBaggage(context.Background(), earlier), mk.car)
+			c.prop.Inject(baggage.ContextWithBaggage(context.Background(), bag), mk.car)
+			out3 := baggage.FromContext(c.prop.Extract(context.Background(), mk.car))
+			if a := diff(got, snap(out3)); a != "" {
+				r.FailHere("inject-extract|second Inject into one carrier|"+a+" differs", desc(), "%s that held %s, after Inject: %s, extracted %s, injected %s", mk.name, earlier.String(), abbr(mk.car.Get("baggage")), canonAll(snap(out3), true), canonAll(got, true))
+			}
 		}
 	}
 	return
